@@ -262,7 +262,16 @@ func main() {
 		if !o.Want(id) {
 			continue
 		}
-		nc := msgx.GenNetCase(hx.NewRNG(o.Seed, id), i == 0)
+		r := hx.NewRNG(o.Seed, id)
+		var nc *msgx.NetCase
+		switch {
+		case i == 1:
+			nc = msgx.GenPipeCase(r, 48, 6) // many replies written at the same moment on one connection
+		case i%4 == 3:
+			nc = msgx.GenPipeCase(r, r.Range(8, 32), 3)
+		default:
+			nc = msgx.GenNetCase(r, i == 0)
+		}
 		coq, tally, err := nc.Run(func() *hx.RNG { return hx.NewRNG(o.Seed, id+"/render") })
 		if err != nil {
 			fmt.Fprintf(os.Stderr, "case %s: %v\n", id, err)
@@ -271,7 +280,7 @@ func main() {
 		for k, v := range tally {
 			w.Tally(k, v)
 		}
-		w.Emit("servers", hx.Case{ID: id, Coq: coq, Desc: map[string]any{"kind": "servers", "queries": len(nc.Queries), "boundary": i == 0}, FKey: "servers"})
+		w.Emit("servers", hx.Case{ID: id, Coq: coq, Desc: map[string]any{"kind": "servers", "queries": len(nc.Queries), "rounds": len(nc.Rounds), "boundary": i == 0}, FKey: "servers"})
 	}
 	nl := o.Count(40, 1000)
 	if o.N > 0 {
